@@ -10,7 +10,7 @@ import vlib, m2, m3
 from batch import Batch, J
 from props.c02 import HAND, defs_of, small_ints, typeless_struct
 
-PROOF_TARGETS = ["TypifyModel.Proofs.C03Valid", "TypifyModel.Proofs.C03", "TypifyModel.Proofs.C03Contain"]
+PROOF_TARGETS = ["TypifyModel.Proofs.C03Valid", "TypifyModel.Proofs.C03", "TypifyModel.Proofs.C03Contain", "TypifyModel.Proofs.FlattenFindings"]
 PROOF_FILES = ["Proofs/C03Valid.lean", "Proofs/C03.lean", "Proofs/Lemmas/RoundTripLemmas.lean", "Proofs/Lemmas/RoundTripStruct.lean",
                "Proofs/Lemmas/RoundTripStruct2.lean", "Proofs/Lemmas/RoundTripMain.lean", "Proofs/Lemmas/RoundTripEnum.lean",
                "Proofs/Lemmas/SortedKv.lean", "Proofs/C03Contain.lean", "Proofs/Lemmas/ContainBasic.lean", "Proofs/Lemmas/ContainRefl.lean",
@@ -64,6 +64,41 @@ def f32_safe(v):
     if isinstance(v, list): return all(f32_safe(x) for x in v)
     return True
 
+def _open_branch_shadows(doc, key, fuel=40):
+    """some anyOf / oneOf reachable from the definition has, after resolving a reference per branch, only PLAIN object
+    schemas among its object branches, an earlier one of them open (additionalProperties not false) and without `required`"""
+    import gen
+    defs = doc.get("definitions") or doc.get("$defs") or {}
+    start = doc if key == "#" else defs.get(key)
+    seen = set(); work = [start]
+    def res(b):
+        for _ in range(4):
+            if isinstance(b, dict) and set(b) - {"description", "title"} == {"$ref"}:
+                try: b = gen.resolve_ref(doc, b["$ref"])
+                except Exception: return None
+            else: break
+        return b
+    def plain_obj(b): return isinstance(b, dict) and b.get("type") == "object" and not ({"allOf", "anyOf", "oneOf", "not", "$ref", "enum", "const"} & set(b))
+    while work and fuel > 0:
+        s = work.pop(); fuel -= 1
+        if isinstance(s, list): work += s; continue
+        if not isinstance(s, dict) or id(s) in seen: continue
+        seen.add(id(s))
+        for comb in ("anyOf", "oneOf"):
+            bs = [res(b) for b in s.get(comb) or []]
+            objs = [(i, b) for i, b in enumerate(bs) if isinstance(b, dict) and (b.get("type") == "object" or "properties" in b or "allOf" in b)]
+            if len(objs) >= 2 and all(plain_obj(b) for _, b in objs):
+                for n, (i, b) in enumerate(objs[:-1]):
+                    if b.get("additionalProperties", True) is not False and not b.get("required"): return True
+        if "$ref" in s and isinstance(s["$ref"], str):
+            try: work.append(gen.resolve_ref(doc, s["$ref"]))
+            except Exception: pass
+        for k2, v2 in s.items():
+            if k2 in ("default", "enum", "const", "examples", "definitions", "$defs"): continue
+            if isinstance(v2, (dict, list)): work.append(v2)
+            if k2 in ("properties", "patternProperties") and isinstance(v2, dict): work += list(v2.values())
+    return False
+
 def attribute(findings, c, key, v, what):
     """mechanism predicates, evaluated on the part of the IR the failing definition can reach"""
     import irutil
@@ -101,13 +136,15 @@ def attribute(findings, c, key, v, what):
                     if p["state"] == "optional" and te.get("kind") == "box" and es.get(te.get("id"), {}).get("kind") == "option":
                         return fd
         if fd["id"] == "C03-untagged-shadow" and what in ("not-contained", "not-fixed-point", "invalid"):
-            # an untagged enum in which a variant that reads every object comes before another object-like variant
-            for i in reach:
-                e = es[i]
-                if e["kind"] == "enum" and e["tag"] == "untagged":
-                    vs = e["variants"]
-                    if any(swallows_objects(a["details"], e.get("deny")) and any(objectlike(b["details"]) for b in vs[k + 1:]) for k, a in enumerate(vs)):
-                        return fd
+            # the mechanism is a fact about the SCHEMA: a union of plain object schemas in which an OPEN branch without required
+            # members comes before another object branch (util.rs object_schemas_mutually_exclusive calls the two exclusive as
+            # soon as the later one requires a member the earlier does not declare, although the earlier, being open, accepts
+            # it); the generated type is then an untagged enum whose earlier variant reads the later one's objects.
+            # (A closed earlier branch, or a branch that is a composition, is a different defect.)
+            if _open_branch_shadows(c.doc, key) and any(es[i]["kind"] == "enum" and es[i]["tag"] == "untagged" and
+                    any(swallows_objects(a["details"], es[i].get("deny")) and any(objectlike(b["details"]) for b in es[i]["variants"][k + 1:])
+                        for k, a in enumerate(es[i]["variants"])) for i in reach):
+                return fd
         if fd["id"] == "C03-anyof-flatten-shared-member" and what in ("not-contained", "not-fixed-point", "invalid"):
             # a struct of flattened Option<struct> members two of which declare a member of the same name
             for i in reach:
